@@ -22,6 +22,43 @@ def run(ctx):
     # TRACE: seeded wide-domain tracks
     cases = _notes.seeded_tracks(ctx, "C02", ctx.pick(400, 6000), unit_gap_p=0.3)
     _notes._judge(ctx, cases, "C02", "seeded tracks", max_skip_ratio=0.01)
+    # "any number of ticks": a few very long sections (hundreds of kilobytes of text), one real parse each, judged in
+    # windows of whole tick groups
+    recs, owner = [], {}
+    for k in range(ctx.pick(3, 24)):
+        ng = r.choice([3000, 5000, 8000])
+        body = nt.random_track(r, ng, res=192, phrases=r.choice([0, 5]), events=r.choice([0, 5]), max_tick_gap=50, unit_gap_p=0.3)
+        song_pad = "x" * r.randrange(0, 70)
+        case = {"id": f"C02-long{k}", "res": 192, "body": body, "song": [f'Name = "{song_pad}"']}
+        ws = nt.observe_windows(case, ["C02"])
+        for w in ws:
+            owner[w["id"]] = case
+        recs += ws
+        # the same section at every byte alignment: pad the song name by 1..N characters and re-parse; the note list must
+        # be the one that was just judged (a reader that works in blocks must not care where a block boundary falls)
+        import hashlib
+        from chartgen import outcome
+
+        def notes_digest(c):
+            kind, val = outcome(nt.case_text(c))
+            if kind == "raise":
+                return "raised:" + type(val).__name__
+            tr = [t for _, dd in val.instrument_tracks.items() for _, t in dd.items()][0]
+            return hashlib.sha256(repr([(int(e.tick), e.note.name) for e in tr.note_events]).encode()).hexdigest()[:20]
+        base_d = notes_digest(case)
+        for pad in range(1, ctx.pick(20, 64)):
+            c2 = dict(case, song=[f'Name = "{song_pad}{"y" * pad}"'])
+            rid = f"C02-long{k}-pad{pad}"
+            recs.append({"id": rid, "props": ["C02"], "kind": "same", "a": base_d, "b": notes_digest(c2)})
+            owner[rid] = c2
+            ctx.evaluations += 1
+        ctx.evaluations += 1
+        ctx.distinct(["long", k, ng, len(body)])
+    ctx.extra["long_section_windows"] = len(recs)
+    for rid, p, clause in ctx.validate(recs, max_skip_ratio=0.0):
+        c = owner[rid]
+        ctx.violation(clause, {"kind": "nt-long", "case": {"id": c["id"], "res": c["res"], "lines": len(c["body"])}, "window": rid,
+                               "text_bytes": len(nt.case_text(c))}, key=clause)
     ctx.assumptions += [
         "well-formed section: N lines in tick order, one line per index per tick, every tick has a lane or open line",
         "the exhaustive NoteTrack scope is bounded (see tlc_runs); beyond it coverage is seeded",
